@@ -321,6 +321,24 @@ func selfExe() string {
 	return p
 }
 
+// CountMain: rigomc count <id> <tier> — number of cases per level (no execution).
+func CountMain(id, tier string) int {
+	c, ok := Lookup(id)
+	if !ok {
+		return 2
+	}
+	if err := c.Prepare(tier, Seed()); err != nil {
+		fmt.Fprintln(os.Stderr, err)
+		return 2
+	}
+	per := map[int]int{}
+	for i := 0; i < c.NumCases(); i++ {
+		per[c.Level(i)]++
+	}
+	fmt.Printf("%s %s: %d cases, per level %v\n", id, tier, c.NumCases(), per)
+	return 0
+}
+
 // CheckMain: rigomc check <id> <tier>
 func CheckMain(id, tier string) int {
 	t0 := time.Now()
